@@ -27,7 +27,7 @@ theorem recvmsg_all_arrived (w : World) (req k : Nat) (hav : AllArrived w) (hk :
 
 /-- one `refill_buffer` after the hang-up, inside an incomplete frame: it reads at least one byte -/
 theorem refill_progress {todo : List Frame} {st : State} {w : World} {nd k : Nat}
-    (hI : Inv p todo st w) (hok : FramesOk p todo) (hne : todo ≠ [])
+    (hI : Inv p todo st w) (hok : FramesOk p todo) (_hne : todo ≠ [])
     (hnd : nd ≤ max 16 (hd todo).bytes.length) (hlt : st.buf.length < nd)
     (hinc : st.buf.length < (hd todo).bytes.length) (hk : 0 < k) (hav : AllArrived w) :
     ∃ st' w', refill st w nd k = (.readOk, st', w') ∧ st.buf.length < st'.buf.length ∧
